@@ -192,8 +192,14 @@ def target_stage_dispatch():
         SM, IN = "analysis/zhit/smoothing/__init__", "analysis/zhit/interpolation"
         calls = []
 
+        # an option passed with the library's own default value changes nothing (stating a default is a harmless edit)
+        LIB_DEFAULTS = {"CubicSpline": {"bc_type": "not-a-knot", "axis": 0, "extrapolate": None}, "PchipInterpolator": {"axis": 0, "extrapolate": None},
+                        "Akima1DInterpolator": {"axis": 0, "extrapolate": None}, "savgol_filter": {"deriv": 0, "delta": 1.0, "axis": -1, "mode": "interp", "cval": 0.0},
+                        "lowess": {"delta": 0.0, "is_sorted": False, "missing": "drop", "xvals": None}}
+
         def lib(name):
             def f(*a, **k):
+                k = {q: v for q, v in k.items() if not (q in LIB_DEFAULTS.get(name, {}) and not isinstance(v, T) and v == LIB_DEFAULTS[name][q])}
                 calls.append((name, a, k))
                 return T.var(f"{name}.result")
             return f
